@@ -3,7 +3,10 @@
 MC : spec/mc/MC_Losses (Losses.tla): zero derivative outside the clip, on-policy identities, value clipping monotone.
 S2C: the static PPO.ppo_loss / A2C.a2c_loss / REINFORCE.reinforce_loss (+ their gradients) on tabular policies for all
      combinations of ratio / advantage sign / flags / coefficients, and PPO.train_batch for the optimiser clause; every case
-     judged by TLC (Trace_Losses)."""
+     judged by TLC (Trace_Losses).
+     End to end: buffers filled by the REAL collectors with a policy whose law depends on observation, carried policy state and
+     action mask; the real losses and the real train on them with the unchanged policy (ratio 1, approx KL 0, policy term from the
+     recorded log-probabilities) - drive_identity."""
 from __future__ import annotations
 
 import copy
@@ -60,6 +63,12 @@ def gen_cases(ctx: Ctx):
                                      ce2=rng.choice([0, 1, 2])), False))
     for (mx, sc) in ((0.5, 2.0), (5.0, 0.5), (1.0, 4.0), (0.25, 0.5)):
         cases.append(("optim", mx, sc))
+    # on-policy identities on buffers filled by the real collectors (stateful policy, action masks, several environments)
+    for an in ("PPO", "A2C", "REINFORCE"):
+        for masked, stateful in ((True, True), (False, True), (True, False)):
+            for N, T in ((2, 8), (1, 8))[:ctx.pick(1, 2)]:
+                for _ in range(ctx.pick(2, 6)):
+                    cases.append(("identity", an, N, T, masked, stateful, rng.randrange(10 ** 6)))
     return cases
 
 
@@ -68,6 +77,9 @@ def record(case):
     kind = case[0]
     if kind == "optim":
         return dl.optim_case(case[1], case[2])
+    if kind == "identity":
+        from .. import drive_identity as di
+        return dict(di.identity_case(*case[1:]), c={})
     return {"ppo": dl.ppo_case, "a2c": dl.a2c_case, "reinforce": dl.reinforce_case}[kind](case[1])
 
 
